@@ -78,8 +78,21 @@ def decoder_clock_box():
 #              library) and then overwrites the object the library returned: a returned message is the caller's, the
 #              library must not keep using it.
 # All three only add activity that a correct library is indifferent to; the oracles of the checks are unchanged.
-HOSTILE = {"neighbour": False, "reuse": False, "scribble": False}
-HOSTILE_STATS = {"neighbour_calls": 0, "neighbours_created": 0, "reused_buffer_calls": 0, "scribbled_messages": 0}
+#   embed      (construction time and object protocol - how an application embeds a decoder)
+#              * a sibling decoder is built FIRST from the very same argument objects (one settings list / dict for all the
+#                decoders of an application), closed and dropped; now and then the garbage collector runs
+#              * the decoder under observation is built from deep copies of the arguments, and the copies are overwritten
+#                afterwards (an application that edits its settings later): a decoder works with what it was given
+#              * every second decoder is handed out as a COPY of the one just built (copy.deepcopy / pickle round trip by
+#                turns) when it can be copied (no open dump file), and every 97th call continues on a deep copy of the
+#                decoder's state taken at that moment
+#              * the class the checks use defines value equality and a constant hash, as an application subclass may (one
+#                decoder per gateway name, say): all of them are equal to each other
+#              * one neighbour is built with default arguments and then has its public settings containers edited
+HOSTILE = {"neighbour": False, "reuse": False, "scribble": False, "embed": False}
+HOSTILE_STATS = {"neighbour_calls": 0, "neighbours_created": 0, "reused_buffer_calls": 0, "scribbled_messages": 0, "siblings_built_from_the_same_argument_objects": 0,
+                 "decoders_handed_out_as_deepcopy": 0, "decoders_handed_out_after_pickle_round_trip": 0, "argument_containers_overwritten_after_construction": 0,
+                 "sessions_continued_on_a_deep_copy_of_the_decoder": 0, "garbage_collections_forced": 0}
 _RealDecoder = NMEA2000Decoder
 _NEIGH = {"list": [], "calls": 0}
 
@@ -96,6 +109,20 @@ def _neighbours():
         prefs2 = {PhysicalQuantities.TEMPERATURE: "f", PhysicalQuantities.PRESSURE: "psi", PhysicalQuantities.ANGLE: "deg"}
         st["list"] = [_RealDecoder(preferred_units=prefs),
                       _RealDecoder(preferred_units=prefs2, build_network_map=True, exclude_manufacturer_code=["Garmin"], dump_to_file="/dev/null")]
+        if HOSTILE["embed"]:
+            # built with nothing but defaults, then its settings are edited through its attributes (whatever containers it has)
+            n3 = _RealDecoder()
+            for name_, val_ in list(vars(n3).items()):
+                try:
+                    if name_ == "preferred_units" and isinstance(val_, dict):
+                        val_.update({k_: "c" if k_ is PhysicalQuantities.TEMPERATURE else "deg" for k_ in (PhysicalQuantities.TEMPERATURE, PhysicalQuantities.ANGLE)})
+                    elif isinstance(val_, list) and ("exclude" in name_ or "include" in name_) and "manufacturer" not in name_ and "ids" not in name_:
+                        pass            # (an include list that is no longer empty changes what that decoder returns - its own business)
+                    elif isinstance(val_, set) and "exclude_manufacturer" in name_:
+                        val_.add("garmin")
+                except Exception:  # noqa: BLE001
+                    pass
+            st["list"].append(n3)
         HOSTILE_STATS["neighbours_created"] += len(st["list"])
     return st["list"]
 
@@ -127,6 +154,18 @@ def _hostile_call(self, real, arg, a, k):
                 except Exception:  # noqa: BLE001
                     pass
             HOSTILE_STATS["neighbour_calls"] += 1
+    if h["embed"] and self.__dict__.get("dump_TextIOWrapper", 0) is None:
+        n_ = self.__dict__["_vf_calls"] = self.__dict__.get("_vf_calls", 0) + 1
+        if n_ % 97 == 0:
+            # the application goes on with a deep copy of the decoder taken right now (a snapshot restored, a template cloned)
+            try:
+                snap = _copy.deepcopy(self)
+                self.__dict__.clear()
+                self.__dict__.update(snap.__dict__)
+                self.__dict__["_vf_calls"] = n_
+                HOSTILE_STATS["sessions_continued_on_a_deep_copy_of_the_decoder"] += 1
+            except Exception:  # noqa: BLE001  (a decoder that cannot be copied is not copied)
+                pass
     scratch = None
     if h["reuse"] and type(arg) is bytes:
         scratch = self.__dict__.get("_vf_scratch")
@@ -148,7 +187,98 @@ def _hostile_call(self, real, arg, a, k):
     return m
 
 
-class NMEA2000Decoder(_RealDecoder):          # noqa: F811  (deliberately replaces the name imported above)
+_EMBED = {"n": 0, "busy": False}
+
+
+def _overwrite_containers(obj, depth=0):
+    if depth > 3:
+        return
+    if isinstance(obj, dict):
+        for v in list(obj.values()):
+            _overwrite_containers(v, depth + 1)
+        keys = list(obj)
+        obj.clear()
+        if keys and all(isinstance(k_, PhysicalQuantities) for k_ in keys):
+            obj.update({PhysicalQuantities.TEMPERATURE: "f", PhysicalQuantities.PRESSURE: "psi", PhysicalQuantities.ANGLE: "deg", PhysicalQuantities.SPEED: "kts"})
+        HOSTILE_STATS["argument_containers_overwritten_after_construction"] += 1
+    elif isinstance(obj, list):
+        for v in obj:
+            _overwrite_containers(v, depth + 1)
+        obj.clear()
+        obj.extend([127250, "vesselHeading", "garmin", 60928])
+        HOSTILE_STATS["argument_containers_overwritten_after_construction"] += 1
+    elif isinstance(obj, set):
+        obj.clear()
+    elif isinstance(obj, tuple):
+        for v in obj:
+            _overwrite_containers(v, depth + 1)
+
+
+class _EmbeddingMeta(type):
+    def __call__(cls, *a, **k):
+        if not HOSTILE["embed"] or _EMBED["busy"]:
+            return super().__call__(*a, **k)
+        import copy as _copy
+        import gc as _gc
+        import pickle as _pickle
+        _EMBED["busy"] = True
+        try:
+            _EMBED["n"] += 1
+            n = _EMBED["n"]
+            try:
+                sib = _RealDecoder(*a, **k)
+                sib.close()
+                del sib
+                HOSTILE_STATS["siblings_built_from_the_same_argument_objects"] += 1
+            except Exception:  # noqa: BLE001  (arguments the constructor refuses: the real call below refuses them too)
+                pass
+            if n % 40 == 0:
+                _gc.collect()
+                HOSTILE_STATS["garbage_collections_forced"] += 1
+            try:
+                a2, k2 = _copy.deepcopy((a, k))
+            except Exception:  # noqa: BLE001
+                a2, k2 = a, k
+            obj = super().__call__(*a2, **k2)
+            if a2 is not a:
+                _overwrite_containers(a2)
+                _overwrite_containers(k2)
+            if n % 3 == 0:
+                # ... and another one from the same arguments while this decoder is alive (the old decoder of a reconnect that is
+                # closed a moment after the new one was built): closed, dropped, collected
+                try:
+                    late = _RealDecoder(*_copy.deepcopy((a, k))[0], **_copy.deepcopy(k))
+                    late.close()
+                    del late
+                    if n % 120 == 0:
+                        _gc.collect()
+                    HOSTILE_STATS["siblings_built_from_the_same_argument_objects"] += 1
+                except Exception:  # noqa: BLE001
+                    pass
+            if n % 2 == 0 and getattr(obj, "dump_TextIOWrapper", 0) is None:
+                try:
+                    if n % 4 == 0:
+                        obj = _copy.deepcopy(obj)
+                        HOSTILE_STATS["decoders_handed_out_as_deepcopy"] += 1
+                    else:
+                        obj = _pickle.loads(_pickle.dumps(obj))
+                        HOSTILE_STATS["decoders_handed_out_after_pickle_round_trip"] += 1
+                except Exception:  # noqa: BLE001  (a decoder that cannot be copied is handed out as it is)
+                    pass
+            return obj
+        finally:
+            _EMBED["busy"] = False
+
+
+class NMEA2000Decoder(_RealDecoder, metaclass=_EmbeddingMeta):          # noqa: F811  (deliberately replaces the name imported above)
+    # an application subclass with value equality (one decoder per gateway name, say): every decoder the checks create is
+    # equal to every other and hashes alike - whatever the library keys by a decoder must be keyed by the object
+    def __eq__(self, other):
+        return isinstance(other, _RealDecoder) if HOSTILE["embed"] else self is other
+
+    def __hash__(self):
+        return 7 if HOSTILE["embed"] else id(self) >> 4
+
     def decode_tcp(self, packet, *a, **k):
         return _hostile_call(self, _RealDecoder.decode_tcp, packet, a, k)
 
